@@ -670,6 +670,9 @@ PROPS["C12"]["xcheck"] = "c12"
 PROPS["C13"]["xcheck"] = "c13"
 PROPS["C15"]["xcheck"] = "c15"
 PROPS["C08"]["xcheck"] = "c08"
+PROPS["C01"]["xcheck"] = "c01"
+PROPS["C04"]["xcheck"] = "c04"
+PROPS["C20"]["xcheck"] = "c20"
 PROPS["C05"]["xcheck"] = "c05"
 PROPS["C07"]["xcheck"] = "c07"
 
